@@ -116,14 +116,27 @@ def check_offline_dense(ctx, c):
     return None
 
 
+def scale_bounds(f, k):
+    if f[0] == "tb1":
+        return ("tb1", f[1], f[2] * k, f[3] * k, scale_bounds(f[4], k))
+    if f[0] == "tb2":
+        return ("tb2", f[1], f[2] * k, f[3] * k, scale_bounds(f[4], k), scale_bounds(f[5], k))
+    return F.rebuild(f, [scale_bounds(c, k) for c in F.children(f)])
+
+
 def check_interleaving(ctx, rng, cases):
-    """cases: discrete online cases; drive them interleaved and alone."""
+    """cases: discrete online cases, each with its own sampling period (1 s / 500 ms / 250 ms; the bounds are written in
+    seconds); drive them interleaved and alone, and compare every object with the model on the formula whose bounds are
+    counted in samples of that object's period (state shared between objects would show even if it persists in this process)."""
     texts = ["out = " + F.to_text(c["f"]) for c in cases]
+    for c in cases:
+        c.setdefault("per", rng.choice([1, 1, 2, 4]))
     order = [i for i, c in enumerate(cases) for _ in range(c["n"])]
     rng.shuffle(order)
 
     def mk(i):
-        s = impl.make_spec("ond", texts[i], cases[i]["vars"])
+        per = cases[i]["per"]
+        s = impl.make_spec("ond", texts[i], cases[i]["vars"], sampling=None if per == 1 else (1000 // per, "ms", 0.1))
         s.parse()
         return s
 
@@ -135,18 +148,18 @@ def check_interleaving(ctx, rng, cases):
             k = pos[i]
             arg = [(v, cases[i]["data"][v][k]) for v in cases[i]["vars"]]
             before = copy.deepcopy(arg)
-            outs[i].append(objs[i].update(k, arg))
+            outs[i].append(objs[i].update(k / cases[i]["per"], arg))
             if arg != before:
                 raise AssertionError("update() modified its argument")
             pos[i] += 1
         alone = []
         for i, c in enumerate(cases):
             s = mk(i)
-            alone.append([s.update(k, [(v, c["data"][v][k]) for v in c["vars"]]) for k in range(c["n"])])
+            alone.append([s.update(k / c["per"], [(v, c["data"][v][k]) for v in c["vars"]]) for k in range(c["n"])])
         return outs, alone
     out = impl.guarded(go)
     rep = {"kind": "interleave", "specs": texts, "formulas": [F.to_proto(c["f"]) for c in cases], "ns": [c["n"] for c in cases],
-           "datas": [c["data"] for c in cases], "order": order, "impl": out}
+           "datas": [c["data"] for c in cases], "pers": [c["per"] for c in cases], "order": order, "impl": out}
     if out[0] != "ok":
         return Violation("interleaved updates raised %r: %s" % (out[1:], texts), rep, stream="pure/interleave")
     outs, alone = out[1]
@@ -154,6 +167,12 @@ def check_interleaving(ctx, rng, cases):
         if not same_vals(outs[i], alone[i]):
             return Violation("monitor %d (%s) returns %r when its updates are interleaved with another object's, %r alone"
                              % (i, texts[i], outs[i], alone[i]), rep, stream="pure/interleave")
+    ms = [disc.parse_model(o) for o in common.driver_run([disc.proto_case("rhot", scale_bounds(c["f"], c["per"]), c["data"], c["n"])
+                                                           for c in cases])]
+    for i, m in enumerate(ms):
+        if m[0] == "ok" and not common.same_nums(outs[i], m[1]):
+            return Violation("monitor %d (%s, sampling period 1/%d s) driven next to other specification objects returns %r; its "
+                             "specification alone means %r" % (i, texts[i], cases[i]["per"], outs[i], m[1]), rep, stream="pure/isolation")
     ctx.nontrivial.add(("interleave", tuple(texts), tuple(order)))
     return None
 
@@ -239,8 +258,8 @@ def replay(ctx, obj):
         v = check_offline_dense(scratch, {"f": F.from_proto(obj["formula"]), "sig": D.sig_of_rep(obj["signals"])})
     elif obj["kind"] == "interleave":
         import random
-        cases = [{"f": F.from_proto(f), "n": n, "data": {k: [float(x) for x in v] for k, v in d.items()}, "vars": sorted(d)}
-                 for f, n, d in zip(obj["formulas"], obj["ns"], obj["datas"])]
+        cases = [{"f": F.from_proto(f), "n": n, "data": {k: [float(x) for x in v] for k, v in d.items()}, "vars": sorted(d), "per": per}
+                 for f, n, d, per in zip(obj["formulas"], obj["ns"], obj["datas"], obj.get("pers", [1] * len(obj["ns"])))]
         v = None
         for s in range(5):
             v = v or check_interleaving(scratch, random.Random(s), cases)
